@@ -43,6 +43,9 @@ func Emit(out *wh.Out, res *Result) {
 	out.Case(res.TraceLine(), "ok")
 	out.Add("events", len(res.Events))
 	out.Count("scenarios")
+	if res.Sc.Conf {
+		out.Count("scenarios_marked_for_conformance")
+	}
 	if res.Sc.Tag != "" {
 		out.Count("family." + strings.SplitN(res.Sc.Tag, "/", 2)[0])
 	}
